@@ -72,6 +72,7 @@ struct Shim {
   std::function<long(const std::string& path, const std::string& data)> on_write;
   // called for every directory entry handed to the code under test: (directory path, entry name)
   std::function<void(const std::string& dir, const std::string& name)> on_readdir;
+  int64_t kill_cost_ms{0}; // virtual time every kill(2) takes (a loaded machine)
   long aux{-1}; // set by on_write: processes a cgroup.kill write found (-1 otherwise)
   // called before every file access with the (redirected) path and a kind tag
   std::function<AccessDecision(const std::string& path, const char* kind)>
